@@ -352,6 +352,22 @@ def repeated_names(prof):
     return out
 
 
+def dict_attribute_names(prof):
+    """Names that are attributes or methods of dict get an underscore appended (docs/syntax.rst), as plain and as list names,
+    bound or left at their defaults."""
+    t1, t2 = ('tok', prof[0]), ('tok', prof[1])
+    out = []
+    for name, other in (('items', 'values'), ('values', 'keys'), ('keys', 'get'), ('update', 'items'), ('pop', 'copy')):
+        out += [
+            ('seq', ('named', name, t1), ('opt', ('nlist', other, t2))),
+            ('seq', ('nlist', name, t1), ('opt', ('named', other, t2)), ('clo', ('nlist', name, t1))),
+            ('clo', ('seq', ('nlist', name, t1), ('opt', ('named', other, t2)))),
+            ('alt', ('seq', ('nlist', name, t1), t2, ('nlist', other, t2)), ('named', name, t1), ('nlist', other, t2)),
+            ('seq', ('opt', ('nlist', name, t2)), ('opt', ('named', other, t1))),
+        ]
+    return out
+
+
 def shard_helper_starts(m, items, inputs=(), prof=('a', 'b')):
     """Parsing from any rule named as start: the helper rules themselves."""
     g = build_grammar(('tok', prof[0]), helpers_for(*prof))
@@ -423,6 +439,7 @@ def run(rc):
     sep = ' ' if prof[0].isalnum() else ''
     token_inputs = [sep.join(t) for n in range(0, 7 if rc.tier == 'quick' else 9) for t in itertools.product(prof, repeat=n)]
     rc.pmap(shard, repeated_names(prof), chunk=1, inputs=token_inputs, prof=prof)
+    rc.pmap(shard, dict_attribute_names(prof), chunk=1, inputs=[t for t in token_inputs if len(t.replace(' ', '')) <= 4 * len(prof[0])], prof=prof)
     rc.pmap(shard_forms, rule_forms(), chunk=1, inputs=list(gs.inputs(['a', 'b', ' '], maxlen + 1)))
     rc.pmap(shard_text_forms, TEXT_FORMS, chunk=1, maxlen=maxlen + 1)
     rc.pmap(shard_helper_starts, ['r', 'R', 's', 'REST'], chunk=1, inputs=inputs, prof=prof)
